@@ -414,8 +414,10 @@ pub struct Workload<'a> {
     pub fresh_every: u64,
 }
 
-/// Default share of cases run on a fresh thread (see Workload::fresh_every).
-pub const FRESH_EVERY_DEFAULT: u64 = 61;
+/// Default share of cases run on a fresh thread (see Workload::fresh_every): every 61st in the quick tier, every
+/// 997th in the thorough tier (whose workloads are 20-100 times larger; thread creation serialises on the process's
+/// memory map, so a fixed share would dominate the run without adding fresh-thread cases that matter).
+pub static FRESH_EVERY_DEFAULT: AtomicU64 = AtomicU64::new(61);
 
 /// Runs one case, on a fresh thread if the workload asks for it.
 fn run_case(wl: &Workload, f: &(dyn Fn(&mut Rec, u64, &mut Rng) + Sync), rec: &mut Rec, idx: u64, rng: &mut Rng) {
@@ -441,7 +443,7 @@ pub static FRESH_THREAD_CASES: AtomicU64 = AtomicU64::new(0);
 impl<'a> Workload<'a> {
     pub fn cases(name: &'static str, count: u64, f: impl Fn(&mut Rec, u64, &mut Rng) + Sync + 'a) -> Self {
         let chunk = (count / 2048).clamp(1, 4096);
-        Workload { name, count, chunk, body: Body::Case(Box::new(f)), fresh_every: FRESH_EVERY_DEFAULT }
+        Workload { name, count, chunk, body: Body::Case(Box::new(f)), fresh_every: FRESH_EVERY_DEFAULT.load(Ordering::Relaxed) }
     }
     /// Sets the share of cases that run on a brand-new thread (1 = every case, 0 = none).
     pub fn fresh(mut self, every: u64) -> Self {
